@@ -19,8 +19,18 @@ impl TemplateLibrary {
         let mut templates = HashMap::new();
 
         let mut elem_id = 0;
+        // Files are visited in the order they were parsed, and the first definition of a
+        // name is the one that is kept (later definitions are reported as duplicates).
+        let mut library_contents = library_contents.into_iter().collect::<Vec<_>>();
+        library_contents.sort_by_key(|(file_id, _)| *file_id);
         for (file_id, file_contents) in library_contents {
             for definition in file_contents {
+                let name = match &definition {
+                    Definition::Function { name, .. } | Definition::Template { name, .. } => name,
+                };
+                if functions.contains_key(name) || templates.contains_key(name) {
+                    continue;
+                }
                 match definition {
                     Definition::Function { name, args, arg_location, body, .. } => {
                         functions.insert(
